@@ -14,8 +14,8 @@
      7 valid mutation of the copy: wrong outcome, or its items handler / observer / declared observer
        did not fire exactly on the copy, or a dependent property is stale
      8 write-once attribute writable again (or lost)
-     9 a child object reached through an Instance / List(Instance) trait is shared with the original
-       or differs in state                                                                            *)
+     9 a child object reached through an Instance / List(Instance) / Dict trait differs in state, or is
+       shared with the original although the trait's own copy metadata is "deep" (or the copy is a pickle)                                                                            *)
 From Coq Require Import ZArith List Bool.
 From TV Require Import Common.Harness C14.Model.
 Import ListNotations.
@@ -147,15 +147,20 @@ Definition clause_readonly (c : cls) (ob : cobs) : bool :=
                      | _ => true
                      end) (co_probes ob).
 
-(* children reached through Instance / List(Instance) / Dict traits: equal state, and not shared with the
-   original whenever the property's mode for that trait is deep (Instance and List carry copy="deep"
-   metadata; a Dict trait carries none, so it is deep under pickle / deepcopy / clone_traits(copy="deep")) *)
+(* children (HasTraits instances) reached through Instance / List(Instance) / Dict traits are not containers:
+   the property's "shares no mutable container" does not speak about them.  They must be equal in state, and
+   they must be copies (not shared) only where the trait's OWN copy metadata says deep (Instance and List carry
+   copy="deep"); a trait without copy metadata is copied by reference by design of copy_traits, and "ref" /
+   "shallow" share by definition. *)
 Definition clause_instances (op : copyop) (ob : cobs) : bool :=
   forallb (fun pr => match pr with
                      | PInst _ meta shared equal =>
                          equal && (negb shared ||
-                                   match law_mode op {| td_type := TAny; td_transient := false; td_copy := meta |} with
-                                   | CDeep => false | _ => true end)
+                                   match op, meta with
+                                   | Pickle, _ => false             (* a pickle never shares *)
+                                   | _, Some CDeep => false
+                                   | _, _ => true
+                                   end)
                      | _ => true
                      end) (co_probes ob).
 
